@@ -9,9 +9,9 @@ BUILD = ("cd /verif/checker && GOFLAGS=-mod=vendor GOPROXY=off GOSUMDB=off GOTOO
 # id -> (built?, technique, level text, level note, design ref)
 P = {
  "C01": (True,
-   "stream-shape calculus: anchors of all join operands in every indicator Compute, symbolic in the periods, vs. a frozen intrinsic-offset table",
-   "Static analysis of ONE structural necessary condition of C01, not of the numbers: at every element-wise combination of streams inside an indicator (about 100 joins) the operands are proved to refer to the same input position for all admissible configurations, or to differ by exactly the offset the documented formula prescribes (8 tabled joins, compared as symbolic expressions). A skewed join evaluates the formula on values of different days for every non-constant series. Operators, constants, window contents, seeds and rounding are not decided.",
-   "Trusts go/types, the intrinsic-offset table, Γ, the declared IdlePeriod contracts of sub-indicators (C02's obligation) and the Fourier–Motzkin procedure. Four genuine misalignments (Apo, Dema, Emv, Fi) are pinned by the unedited tests and listed as known findings.",
+   "value-term comparison: for every output of all 61 indicator Compute methods the calculus derives a term over the input series (delays, sub-indicator operators with their periods, arithmetic, inlined stateless closures, running folds) and compares its rational-function normal form with the formula transcribed from the doc comment; loop-free recurrences compared as guarded commands on every ordering of their inputs; anchors of all join operands vs. a frozen intrinsic-offset table",
+   "Static analysis of the structural part of C01, not a numeric evaluation: (1) the composition each indicator computes (which sub-indicators with which periods on which inputs, how many days delayed, which arithmetic and constants) is proved equal to the documented formula as an identity over uninterpreted operators, for all configurations and hence all series; (2) one step of each loop-free recurrence (EMA, RMA, SMMA, KAMA, moving sum, NVI, OBV) equals the documented update on every sign pattern of its comparisons, ties included; (3) at every element-wise join (about 110) the operands refer to the same input position or differ by the documented offset. Not decided: window contents kept in the search tree and rings (MovingMax/Min/Std, Wma loop, SuperTrend rule, helper.Since), warm-up lengths (C02), floating-point rounding.",
+   "Trusts go/types, the formula and recurrence tables transcribed from the doc comments, the intrinsic-offset table, Γ, the declared IdlePeriod contracts of sub-indicators (C02's obligation), Fourier–Motzkin and the polynomial normal forms. Genuine defects pinned by the unedited tests are listed as known findings: Apo, Dema, Emv, Fi (operands of different days), UlcerIndex (sqrt(Sma(PD)^2) instead of sqrt(Sma(PD^2))), Obv (compares the close with the previous OBV).",
    "§4 C01"),
  "C03": (True,
    "Kahn-network structure analysis over the stage graph derived by the shape calculus: determinacy lint, channel linearity, close-on-all-exits, drain-on-exit, symbolic buffer >= anchor-skew at every fork/join",
